@@ -26,7 +26,10 @@ Edge == {<<N(300), O("*"), N(300)>>, <<N(65535), O("+"), N(1)>>, <<N(1), O("<<")
          <<N(30000), O("*"), N(30000), O("*"), N(30000)>>, <<N(32767), O("+"), N(32767), O("+"), N(32767)>>, <<N(1), O("<<"), N(14), O("<<"), N(14)>>,
          <<N(5), O("/"), N(0)>>, <<N(5), O("/"), O("("), N(3), O("-"), N(3), O(")")>>, <<N(0), O("/"), N(0)>>, <<N(1), O("+"), N(7), O("/"), O("!"), N(1)>>,
          <<N(65535)>>, <<N(65536)>>, <<N(70000)>>, <<O("-"), N(32768)>>, <<O("-"), N(32769)>>, <<N(255), O("+"), N(1)>>, <<N(200), O("+"), N(100)>>,
-         <<N(39999), O("*"), N(39999)>>, <<N(1000), O("*"), N(1000), O("/"), N(1000)>>}
+         <<N(39999), O("*"), N(39999)>>, <<N(1000), O("*"), N(1000), O("/"), N(1000)>>,
+         \* shifts whose result leaves 32 bits (an error is required) next to the largest that fit
+         <<N(65536), O("<<"), N(15)>>, <<N(65535), O("<<"), N(15)>>, <<N(16384), O("<<"), N(15), O("<<"), N(3)>>, <<O("("), N(16384), O("<<"), N(15), O("<<"), N(3), O(")"), O("+"), N(3)>>,
+         <<O("("), N(32768), O("<<"), N(15), O("<<"), N(2), O(")"), O("+"), N(3)>>, <<N(1), O("<<"), N(15), O("<<"), N(15), O("<<"), N(1)>>, <<N(3), O("<<"), N(15), O("<<"), N(15)>>}
 Forms == {<<Nf(10, f1), O(o), Nf(8, f2)>> : f1 \in {"dec", "hex", "oct", "chr"}, f2 \in {"dec", "hex", "oct", "chr"}, o \in {"+", "-", "*", "&", "<"}}
          \cup {<<Nf(v, f)>> : v \in {0, 7, 8, 9, 65, 255}, f \in {"hex", "oct"}} \cup {<<Nf(v, "chr")>> : v \in {48, 65, 97, 126, 10, 9, 0, 92, 39}}
 
